@@ -312,6 +312,9 @@ def run(ctx):
         fx = ctx.facts(config)
         rule_null_document_tag(ctx, fx, config)
         rule_reset(ctx, fx, config)
+        # the iterator judges every document on its own account: whatever observe() accumulates is cleared when a document starts
+        # under per-document enforcement (shared rule, C07) — otherwise the iterator rejects what the batch function accepts
+        C07.rule_reset(ctx, fx, config, prop="C11")
         rule_scope(ctx, fx, config)
         rule_single(ctx, fx, config)
         rule_iter(ctx, fx, config)
